@@ -45,21 +45,6 @@ impl Frame {
         }
         None
     }
-    pub fn find_all(&self, needle: &str) -> Vec<(usize, usize)> {
-        let n: Vec<char> = needle.chars().collect();
-        let mut v = vec![];
-        for (y, r) in self.rows.iter().enumerate() {
-            if r.len() < n.len() {
-                continue;
-            }
-            for x in 0..=r.len() - n.len() {
-                if r[x..x + n.len()].iter().map(|c| c.ch).eq(n.iter().copied()) {
-                    v.push((x, y));
-                }
-            }
-        }
-        v
-    }
 }
 
 #[derive(Clone, Debug, Default)]
